@@ -95,8 +95,9 @@ def handle (line : String) : String :=
         match optNum opts "REL" with
         | some i0 =>
           let cwd := levelDir i0
-          let m := FindObs.ofResult (relSpec fs cwd start)
-          let v := if c17rel fs cwd start (parseObs impl.trimAscii.toString) then "ok" else "FAIL"
+          let rel := List.replicate (i - i0) "d"
+          let m := FindObs.ofResult (findRel fs cwd rel)
+          let v := if c17rel fs cwd rel (parseObs impl.trimAscii.toString) then "ok" else "FAIL"
           s!"RES {resStr m} || C17={v}"
         | none =>
           let m := FindObs.ofResult (find fs start sd)
